@@ -39,7 +39,8 @@ def optNat (j : Json) (k : String) : Option Nat :=
 
 def cfgRefOf (j : Json) : CfgRef :=
   { dir := getNat j "d",
-    file := match j.getObjVal? "f" with | .ok (.str s) => some s.toList | _ => none }
+    file := match j.getObjVal? "f" with | .ok (.str s) => some s.toList | _ => none,
+    stdin := getBool j "stdin" }
 
 def optOf (j : Json) : Option Opt :=
   match getStr j "op" with
@@ -75,6 +76,7 @@ def worldOf (a : Json) : World where
   os := (getStrList a "os").map String.toList
   envFiles := (getArr a "envfiles").map fun f => ((getStr f "n").toList, envFileOf f)
   probe := (getStr a "probe").toList
+  stdinDocs := (getArr a "stdin").map docOf
 
 /-- structured lines of the env file a reference denotes (spec side) -/
 def specLines (a : Json) : FileRef → Option (List (Str × Str))
@@ -151,9 +153,9 @@ def specJson (a : Json) (w : World) (opts : List Opt) : Json :=
   -- the project directory while the environment options run
   let envDir : Nat := match workDir with
     | some d => d
-    | none => match w.given with
-      | c :: _ => c.dir
-      | [] => w.cwd
+    | none => match firstFileDir w.given with
+      | some d => d
+      | none => w.cwd
   -- env files selected by the WithEnvFiles
   let sel := (opts.filterMap fun | .withEnvFiles l => some l | _ => none).getLast?
   let disabled : Option Bool := match (asEqualsMap w.os).get disableKey with
@@ -198,9 +200,9 @@ def specJson (a : Json) (w : World) (opts : List Opt) : Json :=
     let files : List (List (Option Str)) := match filesR with | .ok fs => fs | .error _ => []
     let pdirId : Nat := match workDir with
       | some d => d
-      | none => match cfgs with
-        | c :: _ => c.dir
-        | [] => w.cwd
+      | none => match firstFileDir cfgs with
+        | some d => d
+        | none => w.cwd
     let pdir := (dirNode w pdirId).name
     let src : Spec.Sources := {
       explicit := explicit, fromEnv := projEnv.get cpn,
